@@ -4,8 +4,16 @@ From Verif Require Import Lib.Base C18.Str C18.Model C18.Spec C18.Proofs.
 Open Scope N_scope.
 
 (** Numbers are exact dyadic values scaled by the harness (value * 8 as an integer). *)
-Inductive value := VNum (z : Z) | VHist (bounds : list Z) (counts : list N) (count : N) (sum : Z).
-Inductive ovalue := ONum (z : Z) | OHist (buckets : list (Z * N)) (count : N) (sum : Z).
+Inductive value :=
+| VNum (z : Z)
+| VHist (bounds : list Z) (counts : list N) (count : N) (sum : Z)
+| VExpo (scale : Z) (zero_count : N) (poff : Z) (pcounts : list N) (noff : Z) (ncounts : list N) (count : N) (sum : Z).
+(** [OExpo]: schema, zero count, positive and negative buckets decoded from the spans / deltas of the exposed
+    native histogram as (index, count), sample count, sum. *)
+Inductive ovalue :=
+| ONum (z : Z)
+| OHist (buckets : list (Z * N)) (count : N) (sum : Z)
+| OExpo (schema : Z) (zero_count : N) (pos neg : list (Z * N)) (count : N) (sum : Z).
 
 (** An SDK data point (from a ManualReader on the same provider): attributes in set order, value. *)
 Definition point := (list Model.attr * value)%type.
@@ -14,7 +22,9 @@ Definition oseries := (list Model.attr * option (bytes * bytes) * ovalue)%type.
 
 Inductive case :=
 | CScrape (utf8 no_units no_total : bool) (ns : option (list N)) (no_scope no_target : bool)
-          (name unit : bytes) (kind : N) (scope_name scope_ver : bytes) (pts : list point)
+          (name unit : bytes) (kind : N) (scope_name scope_ver : bytes)
+          (res scope_attrs : list Model.attr)      (* resource attributes; scope attributes incl. name and version, in set order *)
+          (pts : list point)
           (gather_err : bool) (nerr : N) (target scope_info : bool)
           (fam : option (bytes * N * list oseries))
 | CAttrs (utf8 : bool) (input out : list Model.attr).   (* target_info labels of a resource *)
@@ -29,6 +39,9 @@ Definition ovalue_eqb (a b : ovalue) : bool :=
   | ONum x, ONum y => (x =? y)%Z
   | OHist b1 c1 s1, OHist b2 c2 s2 =>
       list_eqb (fun p q => (fst p =? fst q)%Z && (snd p =? snd q)) b1 b2 && (c1 =? c2) && (s1 =? s2)%Z
+  | OExpo a z p n c su, OExpo a' z' p' n' c' su' =>
+      (a =? a')%Z && (z =? z') && list_eqb bucket_eqb (nonzero p) (nonzero p') &&
+      list_eqb bucket_eqb (nonzero n) (nonzero n') && (c =? c') && (su =? su')%Z
   | _, _ => false
   end.
 
@@ -51,12 +64,20 @@ Definition model_value (v : value) : option ovalue :=
       | Some (bs, c, s) => Some (OHist bs c s)
       | None => None
       end
+  | VExpo scale zc poff pcounts noff ncounts count sum =>
+      Some (OExpo scale zc (expo_buckets poff pcounts) (expo_buckets noff ncounts) count sum)
   end.
+
+(** client_golang's NewConstNativeHistogram accepts schemas -4..8 only (modelled, not verified); the SDK's
+    exponential histograms have scales up to 20 (the default MaxScale): such a data point is reported to
+    otel.Handle ("invalid native histogram schema") and left out of the scrape (known finding F-C18-3). *)
+Definition bad_schema (v : value) : bool :=
+  match v with VExpo sc _ _ _ _ _ _ _ => (sc >? 8)%Z || (sc <? -4)%Z | _ => false end.
 
 (** [Some (Some s)]: exposed as [s]; [Some None]: rejected by NewDesc and reported; [None]: crash. *)
 Definition model_series (c : config) (sn sv : bytes) (p : point) : option (option oseries) :=
   let labels := get_attrs (utf8 c) (fst p) in
-  if point_exposed (utf8 c) labels then
+  if point_exposed (utf8 c) labels && negb (bad_schema (snd p)) then
     match model_value (snd p) with
     | Some ov => Some (Some (labels, scope_labels c sn sv, ov))
     | None => None
@@ -74,27 +95,36 @@ Fixpoint collect (l : list (option (option oseries))) : option (list oseries * N
       end
   end.
 
-Definition model_matches (c : config) (name unit : bytes) (kind : N) (sn sv : bytes) (pts : list point)
+Definition model_matches (c : config) (name unit : bytes) (kind : N) (sn sv : bytes)
+    (res scope_attrs : list Model.attr) (pts : list point)
     (gather_err : bool) (nerr : N) (target scope_info : bool)
     (fam : option (bytes * N * list oseries)) : bool :=
-  match get_name c name unit (is_counter (kind_of kind)), collect (map (model_series c sn sv) pts) with
-  | Name n, Some (ms, dropped) =>
-      negb gather_err && (nerr =? dropped) &&
-      Bool.eqb target (has_target_info c) && Bool.eqb scope_info (has_scope_info c) &&
-      match fam with
-      | None => match ms with [] => true | _ => false end
-      | Some (fname, ftype, os) =>
-          bytes_eqb n fname && (family_type (kind_of kind) =? ftype) &&
-          (length ms =? length os)%nat && forallb (fun s => existsb (oseries_eqb s) os) ms
-      end
-  | _, _ => false
-  end.
+  let target_ok := info_labels_ok (utf8 c) res in
+  let scope_ok := without_scope_info c || info_labels_ok (utf8 c) scope_attrs in
+  let terr := if has_target_info c && negb target_ok then 1 else 0 in
+  negb gather_err && Bool.eqb target (has_target_info c && target_ok) &&
+  if scope_ok then
+    match get_name c name unit (is_counter (kind_of kind)), collect (map (model_series c sn sv) pts) with
+    | Name n, Some (ms, dropped) =>
+        (nerr =? dropped + terr) && Bool.eqb scope_info (has_scope_info c) &&
+        match fam with
+        | None => match ms with [] => true | _ => false end
+        | Some (fname, ftype, os) =>
+            bytes_eqb n fname && (family_type (kind_of kind) =? ftype) &&
+            (length ms =? length os)%nat && forallb (fun s => existsb (oseries_eqb s) os) ms
+        end
+    | _, _ => false
+    end
+  else (* the scope info metric cannot be built: the scope is skipped, one error is reported *)
+    (nerr =? 1 + terr) && negb scope_info && match fam with None => true | Some _ => false end.
 
 (** ** spec side (no model function below this line) *)
 Definition value_ok (v : value) (o : ovalue) : bool :=
   match v, o with
   | VNum z, ONum z' => (z =? z')%Z
   | VHist bounds counts count sum, OHist bs c s => hist_ok bounds counts count sum bs c s
+  | VExpo scale zc poff pcounts noff ncounts count sum, OExpo osch oz opos oneg oc os =>
+      expo_ok scale zc poff pcounts noff ncounts count sum osch oz opos oneg oc os
   | _, _ => false
   end.
 
@@ -116,28 +146,40 @@ Definition known_key (utf8 : bool) (k : bytes) : bool :=
   else existsb (N.eqb 58) k || has_prefix (sanitise k) [95; 95].
 Definition known_point (utf8 : bool) (p : point) : bool := existsb (fun kv => known_key utf8 (fst kv)) (fst p).
 
+Definition known_attrs (utf8 : bool) (l : list Model.attr) : bool := existsb (fun kv => known_key utf8 (fst kv)) l.
+
 Definition check_case (c : case) : list N :=
   match c with
-  | CScrape utf8 no_units no_total ns no_scope no_target name unit kind sn sv pts gerr nerr target scope_info fam =>
+  | CScrape utf8 no_units no_total ns no_scope no_target name unit kind sn sv res scope_attrs pts gerr nerr target scope_info fam =>
       let cfg := {| Model.utf8 := utf8; without_units := no_units; without_counter_suffixes := no_total;
                     ns_opt := ns; without_scope_info := no_scope; without_target_info := no_target |} in
       let inp := {| ni_utf8 := utf8; ni_no_units := no_units; ni_no_total := no_total; ni_ns := ns;
                     ni_name := name; ni_unit := unit; ni_counter := (kind =? 0) |} in
-      let good := filter (fun p => negb (known_point utf8 p)) pts in
+      let good := filter (fun p => negb (known_point utf8 p) && negb (bad_schema (snd p))) pts in
       let bad := filter (known_point utf8) pts in
+      let bad3 := filter (fun p => negb (known_point utf8 p) && bad_schema (snd p)) pts in
       let os := match fam with Some (_, _, os) => os | None => [] end in
       let covered p := existsb (series_ok utf8 no_scope sn sv p) os in
-      flag (model_matches cfg name unit kind sn sv pts gerr nerr target scope_info fam) V_MISMATCH ++
-      flag (negb gerr && info_ok no_target no_scope target scope_info &&
-            match fam with
-            | None => match good with [] => true | _ => false end
-            | Some (fname, ftype, _) => name_ok inp fname && type_ok kind ftype
-            end &&
-            forallb covered good &&
-            forallb (fun s => existsb (fun p => series_ok utf8 no_scope sn sv p s) pts) os &&
-            (length os <=? length pts)%nat &&
-            (N.of_nat (length os) + nerr =? N.of_nat (length pts))) V_SPECFAIL ++
-      flag (forallb covered bad) (V_KNOWN 2)
+      (* F-C18-2 on the resource / the scope: target_info is not exposed / the whole scope is skipped *)
+      let res_known := negb no_target && known_attrs utf8 res && negb target in
+      let scope_known := negb no_scope && known_attrs utf8 scope_attrs && negb scope_info &&
+                         match fam with None => true | Some _ => false end in
+      let terr := if negb no_target && negb target then 1 else 0 in
+      flag (model_matches cfg name unit kind sn sv res scope_attrs pts gerr nerr target scope_info fam) V_MISMATCH ++
+      flag (negb gerr && (Bool.eqb target (negb no_target) || res_known) &&
+            if scope_known then (nerr =? 1 + terr)
+            else
+              Bool.eqb scope_info (negb no_scope) &&
+              match fam with
+              | None => match good with [] => true | _ => false end
+              | Some (fname, ftype, _) => name_ok inp fname && type_ok kind ftype
+              end &&
+              forallb covered good &&
+              forallb (fun s => existsb (fun p => series_ok utf8 no_scope sn sv p s) pts) os &&
+              (length os <=? length pts)%nat &&
+              (N.of_nat (length os) + nerr =? N.of_nat (length pts) + terr)) V_SPECFAIL ++
+      flag (negb res_known && negb scope_known && (scope_known || forallb covered bad)) (V_KNOWN 2) ++
+      flag (scope_known || forallb covered bad3) (V_KNOWN 3)
   | CAttrs utf8 input out =>
       flag (attrs_eqb (get_attrs utf8 input) out) V_MISMATCH ++
       flag (labels_ok utf8 input out) V_SPECFAIL
